@@ -1137,6 +1137,52 @@ func H_PushRuneUnit() {
 	}
 }
 
+// H_RowInvariant (C10 precondition, concrete): every emitted row is
+// well-formed: row inside the table, ranges sorted, disjoint, B <= E <=
+// U+10FFFF, targets name existing states, action section made of known
+// (type, parameter) pairs with modes in range.
+func H_RowInvariant() {
+	for mi, mode := range _lexerModes {
+		nstates := 0
+		for nstates < len(mode) && int(mode[nstates]) >= nstates && (nstates == 0 || true) {
+			// the index section ends where the first row starts
+			if nstates > 0 && nstates >= int(mode[0]) {
+				break
+			}
+			nstates++
+		}
+		for st := 0; st < nstates; st++ {
+			i := int(mode[st])
+			vrt.Assert(i >= nstates && i < len(mode), "row-offset-inside-table")
+			count := int(mode[i])
+			end := i + 1 + count
+			vrt.Assert(end <= len(mode) && count >= 2, "row-inside-table")
+			gotoN := int(mode[i+2])
+			k := i + 3
+			vrt.Assert(k+3*gotoN <= end, "ranges-inside-row")
+			prevE := int64(-1)
+			for j := 0; j < gotoN; j++ {
+				b, e, t := int64(mode[k+3*j]), int64(mode[k+3*j+1]), int(mode[k+3*j+2])
+				vrt.Assert(b <= e && e <= 0x10FFFF, "range-well-formed")
+				vrt.Assert(b > prevE, "ranges-sorted-and-disjoint")
+				vrt.Assert(t < nstates, "target-is-a-state")
+				prevE = e
+			}
+			acts := k + 3*gotoN
+			vrt.Assert((end-acts)%2 == 0, "actions-are-pairs")
+			for a := acts; a+1 < end; a += 2 {
+				typ, par := mode[a], int(mode[a+1])
+				vrt.Assert(typ >= 1 && typ <= 5, "known-action-type")
+				if typ == 1 {
+					vrt.Assert(par < len(_lexerModes), "mode-parameter-in-range")
+				}
+			}
+		}
+		_ = mi
+	}
+	vrt.Reach("rows-checked")
+}
+
 // H_TokString (C19): _TokenToString over a symbolic int.
 func H_TokString() {
 	t := vrt.Int("t")
